@@ -22,6 +22,7 @@ def gen_spec(rng, same=None):
     if same is not None:
         f = same.split(":")
         f[8] = "%x" % rng.getrandbits(16)
+        f[7] = "%d" % rng.choice((0, 1, 2, 3))     # another kind of data: another auto-tuned interval count
         return ":".join(f)
     name = rng.choice(("SZ", "SZ2.1", "SZ1.4"))
     ty = rng.choice((0, 0, 1))
@@ -63,7 +64,38 @@ def gen_cases(chk):
         sched = ",".join("%x" % rng.randrange(nt) for _ in range(ntok)) or "_"
         if i % 10 == 9:
             sched = "free"
+        if style == 1 and i % 2 == 1:
+            # calls the model says cannot disturb each other: equal settings, no range protection (min/max then do not matter), mostly the
+            # multi-dimensional kernels -- any difference here is a read the model does not know about
+            cfg = rng.choice([c_ for c_ in CFGS if "protectValueRange" not in c_])
+            f = specs[0].split(":")
+            f[2] = ",".join("%x" % v for v in [0] * 2 + list(rng.choice(((8, 9, 10), (6, 6, 6), (1, 30, 40), (1, 10, 10)))))
+            if int(f[3], 16) == PW_REL:
+                f[3] = "0"; f[6] = "0"
+            specs = [":".join(f)] + [gen_spec(rng, same=":".join(f)) for _ in range(nt - 1)]
         cases.append("thr %s %s %s" % (cfg, sched, "/".join(specs)))
+    # windows: call A runs k blocks, call B (another element type, bound mode or bound) runs its entry, A runs one more block, call C -- a
+    # copy of A -- runs its entry and so puts every entry-written global back to A's values; A then finishes.  A read of a global in A's
+    # block k+1 that the model does not list shows up here as an unexplained difference instead of drowning in the listed race
+    combos = [(ty, shp, what, nm) for ty in (0, 1) for shp in ((30, 40), (8, 9, 10), (300,)) for what in (0, 1, 2) for nm in (("SZ2.1",) if not thorough else ("SZ2.1", "SZ1.4", "SZ"))]
+    for i, (ty, shp, what, nm) in enumerate(combos):
+        a = gen_spec(rng).split(":")
+        a[0], a[1] = nm, "%x" % ty
+        a[2] = ",".join("%x" % v for v in [0] * (5 - len(shp)) + list(shp))
+        if int(a[3], 16) == PW_REL:
+            a[3] = "0"; a[6] = "0"
+        b = list(a)
+        if what == 0:
+            b[1] = "%x" % (1 - int(a[1], 16))
+        elif what == 1:
+            b[3] = "%x" % PW_REL; b[6] = dbits(1e-2)
+        else:
+            b[4] = dbits(struct.unpack("<d", struct.pack("<Q", int(a[4], 16)))[0] * 7.0)
+        b[8] = "%x" % rng.getrandbits(16)
+        A, B = ":".join(a), ":".join(b)
+        for k in (1, 2, 3):
+            cfg = rng.choice([c_ for c_ in CFGS if "protectValueRange" not in c_])
+            cases.append("thr %s %s %s" % (cfg, ",".join(["0"] * k + ["1", "0", "2"]), "/".join((A, B, A))))
     return cases
 
 
@@ -106,7 +138,7 @@ def own_values(spec, rec):
     return v
 
 
-def programs(spec, v, trace, protect, accel_cfg):
+def programs(spec, v, trace, protect, accel_cfg, t=0):
     """(header program, reconstruction-relevant program) of one call, as thrm thread strings, from the yield points it hit"""
     f = spec.split(":")
     name, mode = f[0], int(f[3], 16)
@@ -120,33 +152,52 @@ def programs(spec, v, trace, protect, accel_cfg):
 
     def r(g):
         return "1.%x.0" % g
+
+    def cp(a, b):
+        return "2.%x.%x" % (a, b)
     if not trace:       # at most 20 elements: the entry returns after writing type and mode (before the accelerate flag is touched)
-        return "%s,%s" % (w(0, v["T"]), w(1, int(f[3], 16))), w(1, 1 if mode >= PW_REL else 0)
-    hb, rb = [[w(0, v["T"]), w(1, v["M"]), w(2, v["B"]), w(3, v["MN"]), w(4, v["MX"])]], [[w(1, mclass)]]
-    # global 6 = "accelerate flag cleared" (0 = as configured): cleared by every call whose pw_rel argument is below 1e-5,
-    # read by a PW_REL call right after (path selection) and by its serialiser, put back on return
+        return "%s,%s" % (w(0, v["T"]), w(1, int(f[3], 16))), "%s,%s" % (w(0, v["T"]), w(1, 1 if mode >= PW_REL else 0))
+    hb, rb = [[w(0, v["T"]), w(1, v["M"]), w(2, v["B"]), w(3, v["MN"]), w(4, v["MX"])]], [[w(0, v["T"]), w(1, mclass)]]
+    # global 6 = "accelerate flag cleared" (0 = as configured): every call saves the current value in a local (slot 100+t) at entry and
+    # copies it back on return -- what it saved may already be another call's cleared value; cleared by every call whose pw_rel argument
+    # is below 1e-5, read by a PW_REL call right after (path selection) and by its serialiser
+    rb[0].append(cp(6, 0x100 + t))
     if v["pwr_small"]:
         rb[0].append(w(6, 1))
     if mode == PW_REL:
         rb[0].append(r(6))
     if protect:
         rb[0] += [w(3, v["MN"]), w(4, v["MX"])]
+    in_tdps = False
     for p in trace:
         if p == 3:
             rb[-1].append(w(7, v["CAP"]))
         hb.append([]); rb.append([])
+        if p == 4:
+            in_tdps = True
+        if p == 2 and in_tdps:
+            # convertTDPStoBytes_{float,double} go on reading the bound mode (and, for PW_REL, the accelerate flag) after the parameter block
+            rb[-1].append(r(1))
+            if mode == PW_REL:
+                rb[-1].append(r(6))
         if p == 3 and regression:
             rb[-1].append(r(7))
+        elif p == 1:
+            # the entry re-reads the bound mode from the global right after its own writes to choose the path (PW_REL or not):
+            # a call of the other class scheduled in between sends this one down the other path
+            rb[-1].append(r(1))
         elif p == 2:
             hb[-1] += [r(0), r(1), r(2), r(3), r(4)]
             if protect:
+                # the serialiser picks fmin/fmax or dmin/dmax by the element type it reads from the global: with range protection the
+                # decompressor clamps to what was written (without it the block's content does not reach the reconstruction)
+                rb[-1].append(r(0))
                 rb[-1] += [r(3), r(4)]
         elif p == 4:
             rb[-1].append(r(1))
             if mode == PW_REL:
                 rb[-1].append(r(6))
-    if v["pwr_small"]:
-        rb[-1].append(w(6, 0))     # the configured value is put back on return
+    rb[-1].append(cp(0x100 + t, 6))     # the saved value is put back on return
     enc = lambda bl: ";".join(",".join(b) if b else "-" for b in bl)
     return enc(hb), enc(rb)
 
@@ -170,8 +221,27 @@ def run(chk):
         d = parse(o)
         if o.startswith("DIED") or any(("a%d" % t) not in d or ("c%d" % t) not in d or d["c%d" % t].get("hdr") is None or d["a%d" % t].get("hdr") is None for t in range(nt)):
             # a crash under concurrency: the listed race classes can corrupt a stream layout (mode read from another call)
-            modes = set(int(s.split(":")[3], 16) >= PW_REL for s in specs)
-            cls = "thr_settings_race" if len(modes) > 1 else None
+            # (bound-mode class or element type read from another call: the serialiser then lays out a different block than was allocated)
+            modes = set((int(s.split(":")[3], 16) >= PW_REL, int(s.split(":")[1], 16)) for s in specs)
+            # or the accelerate flag: a PW_REL call next to any call that clears it (pw_rel argument below 1e-5) and puts its saved value back
+            def small(sp):
+                return struct.unpack("<d", struct.pack("<Q", int(sp.split(":")[6], 16)))[0] < 0.000009999
+            accel = any(int(sp.split(":")[3], 16) >= PW_REL for sp in specs) and sum(1 for sp in specs if small(sp)) >= 1 and len(specs) > 1
+            cls = "thr_settings_race" if len(modes) > 1 or accel else None
+            if cls and sched != "free":
+                # sharper: every call made alone gives its values and yield trace; if under this schedule the model lets no call read another
+                # call's value, the listed race does not explain the death
+                al_o = lib.run_cases(exe, ["thr %s _ %s" % (cfg, sp) for sp in specs], timeout=600)
+                al_d = [parse(x).get("a0") for x in al_o]
+                if all(x is not None and x.get("hdr") is not None for x in al_d):
+                    pv = "protectValueRange=YES" in cfg
+                    vv = [own_values(specs[t], al_d[t]) for t in range(nt)]
+                    pp = [programs(specs[t], vv[t], al_d[t]["trace"], pv, 1, t) for t in range(nt)]
+                    mm = lib.run_cases(model, ["thrm %s %s" % ("/".join(x[1] for x in pp), sched)] + ["thrm %s _" % x[1] for x in pp], timeout=600)
+                    if all(x.startswith("obs=") for x in mm):
+                        conc = mm[0][4:].split("/")
+                        if all(conc[t] == mm[1 + t][4:].split("/")[0] for t in range(nt)):
+                            cls = None
             if cls and cls in chk.known_classes:
                 chk.known(cls, chk.known_classes[cls]["text"])
                 continue
@@ -186,8 +256,8 @@ def run(chk):
             hp = rp = None
         else:
             dist["tokens"] += 0 if sched == "_" else len(sched.split(","))
-            pr = [programs(specs[t], vals[t], d["c%d" % t]["trace"], protect, 1) for t in range(nt)]
-            al = [programs(specs[t], vals[t], d["a%d" % t]["trace"], protect, 1) for t in range(nt)]
+            pr = [programs(specs[t], vals[t], d["c%d" % t]["trace"], protect, 1, t) for t in range(nt)]
+            al = [programs(specs[t], vals[t], d["a%d" % t]["trace"], protect, 1, t) for t in range(nt)]
             mcases.append("thrm %s %s" % ("/".join(p[0] for p in pr), sched)); meta.append((c, "hdr", d, vals))
             mcases.append("thrm %s %s" % ("/".join(p[1] for p in pr), sched)); meta.append((c, "rec", d, vals))
             for t in range(nt):
